@@ -218,7 +218,11 @@ def validate_traces(mod, constdefs, cfg_constants, traces, procs=16, timeout=360
             f = os.path.join(w.path, 'traces_%d.json' % k)
             with open(f, 'w') as fh:
                 json.dump(part, fh)
-            text = (TRACE_TEMPLATE.replace('@TRACE@', name).replace('@MOD@', mod)
+            spec_text = open(os.path.join(SPEC, mod + '.tla')).read()
+            template = TRACE_TEMPLATE
+            if 'AuxVars ==' in spec_text:       # modules with more history variables than `path`
+                template = template.replace('UNCHANGED path', 'UNCHANGED AuxVars')
+            text = (template.replace('@TRACE@', name).replace('@MOD@', mod)
                     .replace('@CONSTDEFS@', constdefs).replace('@FILE@', f))
             w.write(name + '.tla', text)
             cfg = 'SPECIFICATION TSpec\nCHECK_DEADLOCK FALSE\nCONSTANTS\n' + '\n'.join('  ' + c for c in cfg_constants) + '\n'
